@@ -105,7 +105,8 @@ FamMx(w12, maxBad) ==
                       [] OTHER   -> APat(<<CText("a"), CPct, CRef(PName(w[2])), CText("b")>>)],  \* after %%, multi
       !.services = [s \in {"s1", "s2", "s3"} |->
                     CASE s = "s1" ->
-                          [CtorSvc("NewA", <<ARef(PName(w[3])), ASvc(SName(w[4]))>>) EXCEPT
+                          \* a service given by a value has no constructor arguments; its calls and fields are checked all the same
+                          [(IF val /\ w[3] = "ok" /\ w[4] = "ok" /\ dd = "none" THEN [EmptySvc EXCEPT !.value = "Var"] ELSE CtorSvc("NewA", <<ARef(PName(w[3])), ASvc(SName(w[4]))>>)) EXCEPT
                              !.calls = <<Call("SetX", <<APat(<<CText("x"), CRef(PName(w[5]))>>), ASvc(SName(w[6]))>>, FALSE)>>,
                              !.fields = <<Field("F1", ARef(PName(w[7]))), Field("F2", ASvc(SName(w[8])))>>]
                       [] s = "s2" -> CtorSvc("NewB", <<>>)
@@ -114,7 +115,8 @@ FamMx(w12, maxBad) ==
       !.decorators = IF dd = "none" THEN <<>>
                      ELSE <<Dec("t1", "Decorate", <<ARef(PName(dd)), ASvc(SName(dd))>>)>>] :
       w \in {f \in [1..8 -> Tgt] : /\ f[1] = w12[1] /\ f[2] = w12[2]
-                                    /\ Cardinality({i \in 1..8 : f[i] # "ok"}) <= maxBad}, dd \in {"none"} \cup Tgt}
+                                    /\ Cardinality({i \in 1..8 : f[i] # "ok"}) <= maxBad}, dd \in {"none"} \cup Tgt,
+      val \in BOOLEAN}
 
 
 (* K: every argument POSITION of one service (constructor argument, first and second argument of a call that is followed   *)
